@@ -280,6 +280,14 @@ func enumC02(env *engine.Env, yield func(any) bool) {
 			return
 		}
 	}
+	// the format-specific override is taken verbatim, also when it looks like a GOARCH value the table would translate
+	for _, ov := range []string{"amd64", "386", "arm7", "arm6", "all", "mipsle", "x86_64", "noarch", "ARM64"} {
+		c := baseMeta()
+		c.Arch, c.FormatArch = "arm64", ov
+		if !emit("arch-override", c) {
+			return
+		}
+	}
 	// (b) version components
 	for _, v := range []string{"1.2.3", "v1.2.3"} {
 		for _, epoch := range []string{"", "2"} {
